@@ -6,7 +6,7 @@
    (column count < 2^16, byte / element counts < 2^32).  row_same = same variants, equal
    contents (floats: same bits, or both NaN).
    History: finding F-C33-1 (Float(+-0.0) was written as the ZERO discriminant and read back as
-   Int 0) was fixed by /repo commit a939896; the model follows the repaired writer and the
+   Int 0) was fixed by /repo commit d11dc56; the model follows the repaired writer and the
    theorems below hold for all well-formed rows, zero floats included (zero_float_regression). *)
 From Coq Require Import ZArith List Bool.
 From Flocq Require Import IEEE754.Binary IEEE754.Bits.
@@ -58,7 +58,7 @@ Theorem partition_spiller_roundtrip :
     exists out, spiller_read budget rows = Some out /\ rows_same rows out = true.
 Proof. exact spiller_read_l. Qed.
 
-(* the rows of the former finding F-C33-1 (fixed by /repo commit a939896): +0.0 and -0.0 come back
+(* the rows of the former finding F-C33-1 (fixed by /repo commit d11dc56): +0.0 and -0.0 come back
    bit for bit, and the spiller returns the same rows whether or not it spilled *)
 Theorem zero_float_regression :
   deser_row (ser_row [VInt 7; VFloat 0; VFloat F64_NEG_ZERO]) = Some ([VInt 7; VFloat 0; VFloat F64_NEG_ZERO], []) /\
